@@ -302,3 +302,30 @@ where
         out
     }))
 }
+
+
+/// vpercentile_of on 64-bit integers given as base + offset (integers an f64 cannot tell apart; round 11)
+pub fn percentile_of_wide(offsets: &[Option<i64>], score_off: i64, base: i64, m: PMethod, kind: u8) -> Outcome<Cell> {
+    let m = match m {
+        PMethod::Rank => PercentileOfMethod::Rank,
+        PMethod::Weak => PercentileOfMethod::Weak,
+        PMethod::Strict => PercentileOfMethod::Strict,
+    };
+    let offsets = offsets.to_vec();
+    catch(move || match kind {
+        0 => {
+            let v: Vec<Option<i64>> = offsets.iter().map(|o| o.map(|x| base + x)).collect();
+            c_f(v.titer().vpercentile_of(Some(base + score_off), m))
+        }
+        1 => {
+            let v: Vec<i64> = offsets.iter().map(|o| base + o.expect("no null in a plain i64 series")).collect();
+            c_f(v.titer().vpercentile_of(base + score_off, m))
+        }
+        _ => {
+            // u64 above i64::MAX
+            let b = (1u64 << 63) + base.unsigned_abs();
+            let v: Vec<u64> = offsets.iter().map(|o| b + o.expect("no null in a u64 series") as u64).collect();
+            c_f(v.titer().vpercentile_of(b + score_off as u64, m))
+        }
+    })
+}
